@@ -218,6 +218,39 @@ func (m *idlModel) typeNodes() []typeNode {
 						}, nil, nil); reach {
 							tn.Kinds = append(tn.Kinds, kindAlt{x.Int64(), base})
 						}
+					case *ssa.Extract:
+						// the kind looked up in a constant table keyed by a token: `kind, ok := primitiveKinds[keyword]`
+						// under ok - one alternative per entry, each with the fact `token == key`
+						lk, isLk := x.Tuple.(*ssa.Lookup)
+						if !isLk || x.Index != 0 || !lk.CommaOk {
+							break
+						}
+						ld, isLd := lk.X.(*ssa.UnOp)
+						if !isLd {
+							break
+						}
+						g, isG := ld.X.(*ssa.Global)
+						if !isG {
+							break
+						}
+						mm, isMM := m.p.ConstGlobal(g).(*ssa.MakeMap)
+						if !isMM || !hasFact(base, "EQ", "ext("+m.T.T(lk)+",1)", "const:true") {
+							break
+						}
+						keyT := m.T.T(lk.Index)
+						for _, ref := range *mm.Referrers() {
+							mu, isMU := ref.(*ssa.MapUpdate)
+							if !isMU {
+								continue
+							}
+							kk, ok1 := mu.Key.(*ssa.Const)
+							vv, ok2 := mu.Value.(*ssa.Const)
+							if !ok1 || !ok2 {
+								continue
+							}
+							fcts := append([]Fact{{Op: "EQ", A: keyT, B: constTerm(kk)}}, base...)
+							tn.Kinds = append(tn.Kinds, kindAlt{vv.Int64(), fcts})
+						}
 					case *ssa.Phi:
 						for i, e := range x.Edges {
 							if k, ok := e.(*ssa.Const); ok {
